@@ -3,6 +3,7 @@
 //
 //   parse <hexdoc> <tbl>        jbn_from_json            -> ok <dump> | ok none | err E_x       (tbl: oracle table, ignored here)
 //   print <pf> <dump>           jbn_as_json on the tree  -> ok <hex text> | err E_x
+//   jprint <pf> <dump>          jbl_from_node + jbl_as_json (binary form) -> ok <hex text> | err E_x | err1 E_x
 //   unesc <hex> <dlen>          one call of _jbl_unescape_json_string(q='"', d = buffer of dlen bytes)
 //                                                        -> ok <ret> <hex of d[0..min(ret,dlen))> <end offset> | err E_x
 //   enc <cp>                    utf8proc_codepoint_valid, utf8proc_encode_char -> <0|1> <hex>
@@ -143,6 +144,26 @@ int main(void) {
         if (rc) printf("err %s\n", ename(rc));
         else { printf("ok "); puthex(iwxstr_ptr(x), iwxstr_size(x)); printf("\n"); }
         iwxstr_destroy(x);
+      }
+      iwpool_destroy(pool);
+    } else if (!strcmp(cmd, "jprint") && tn >= 3) {
+      struct iwpool *pool = iwpool_create(0);
+      int pf = atoi(tv[1]);
+      ti = 2;
+      struct jbl_node *n = rdval(pool);
+      struct jbl *jbl = 0;
+      if (!n) printf("?bad-dump\n");
+      else {
+        iwrc rc = jbl_from_node(&jbl, n);
+        if (rc) printf("err1 %s\n", ename(rc));
+        else {
+          struct iwxstr *x = iwxstr_create_empty();
+          rc = jbl_as_json(jbl, jbl_xstr_json_printer, x, (jbl_print_flags_t) pf);
+          if (rc) printf("err %s\n", ename(rc));
+          else { printf("ok "); puthex(iwxstr_ptr(x), iwxstr_size(x)); printf("\n"); }
+          iwxstr_destroy(x);
+          jbl_destroy(&jbl);
+        }
       }
       iwpool_destroy(pool);
     } else if (!strcmp(cmd, "unesc") && tn >= 3) {
